@@ -5,7 +5,7 @@
 From Coq Require Import ZArith List Bool.
 From Common Require Import Res Str.
 From Audio Require Import Model Spec Mixer Obs Monitor
-  Proofs_Monitor Proofs_Run Proofs_State Proofs_Stream Proofs_Tags Proofs_Buffering Proofs_Mixer.
+  Proofs_Monitor Proofs_Glue Proofs_Run Proofs_State Proofs_Stream Proofs_Tags Proofs_Buffering Proofs_Mixer.
 Import ListNotations.
 Open Scope Z_scope.
 
@@ -92,7 +92,7 @@ Print Assumptions C06_T2_stopped_then_stream_none.
 (* ------------------------------------------------------------------ T3 *)
 
 Theorem C06_T3_stream_announced_once : forall ins,
-  announced (all_events init ins) = expected_announcements None ins.
+  announced (all_events init ins) = expected_announcements false None ins.
 Proof. exact stream_announced_once. Qed.
 Print Assumptions C06_T3_stream_announced_once.
 
@@ -207,7 +207,8 @@ Print Assumptions C06_T5_buffering_full_resumes.
 
 Theorem C06_T5_messages_issue_no_commands : forall w i,
   match i with
-  | StateChanged _ _ _ _ | Tag _ | StreamStart | Eos | Other | Segment _ | GetCurrentTags => True
+  | StateChanged _ _ _ _ | Tag _ | StreamStart | Eos | Warning | AsyncDone | Element _ | Other
+  | Segment _ | GetCurrentTags | GetPosition _ _ | SetAtfCallback _ | SetSourceCallback _ => True
   | _ => False
   end ->
   o_cmds (snd (step w i)) = [].
@@ -255,6 +256,102 @@ Theorem C06_T6_integer_division_refuted :
   exists v, 0 <= v <= 100 /\ get_val (f_of_Z (v / 100)) <> v.
 Proof. exact integer_division_refuted. Qed.
 Print Assumptions C06_T6_integer_division_refuted.
+
+(* ------------------------------------------------------------------ glue around the core *)
+
+Theorem C06_T1_reports_match_last_reached : forall pre i old new tgt,
+  In (EvState old new tgt) (o_evs (snd (step (final init pre) i))) ->
+  old = last_reached pre /\ new = last_reached (pre ++ [i]).
+Proof. exact reports_match_last_reached. Qed.
+Print Assumptions C06_T1_reports_match_last_reached.
+
+Theorem C06_T5_no_stuck_pause : forall ins,
+  buffering (final init ins) = false ->
+  match last_set (all_cmds init ins) with
+  | Some c => c = last_request ins
+  | None => last_request ins = NULL
+  end.
+Proof. exact no_stuck_pause. Qed.
+Print Assumptions C06_T5_no_stuck_pause.
+
+Theorem C06_T5_resumed_after_full : forall pre m,
+  m <> Some BLive -> last_request pre = PLAYING ->
+  last_set (all_cmds init (pre ++ [Buffering 100 m])) = Some PLAYING /\
+  buffering (final init (pre ++ [Buffering 100 m])) = false.
+Proof. exact resumed_after_full. Qed.
+Print Assumptions C06_T5_resumed_after_full.
+
+Theorem C06_ignored_messages : forall w i,
+  match i with Warning | AsyncDone | Element _ | Other => True | _ => False end ->
+  step w i = (w, quiet).
+Proof. exact ignored_messages. Qed.
+Print Assumptions C06_ignored_messages.
+
+Theorem C06_foreign_state_changed_ignored : forall w o n p,
+  step w (StateChanged false o n p) = (w, quiet).
+Proof. exact foreign_state_changed_ignored. Qed.
+Print Assumptions C06_foreign_state_changed_ignored.
+
+Theorem C06_raises_characterised : forall w i e,
+  o_ret (snd (step w i)) = Raise e ->
+  (e = KeyError /\ exists o, i = StateChanged true o VOID VOID) \/
+  (e = AudioException /\ exists l p h, i = SourceSetup false l p h).
+Proof. exact raises_characterised. Qed.
+Print Assumptions C06_raises_characterised.
+
+Theorem C06_about_to_finish_guard : forall w next, step w (AboutToFinish true next) = (w, quiet).
+Proof. exact about_to_finish_guard. Qed.
+Print Assumptions C06_about_to_finish_guard.
+
+Theorem C06_about_to_finish_without_callback : forall w same next,
+  atf_cb (cfg w) = false -> step w (AboutToFinish same next) = (w, quiet).
+Proof. exact about_to_finish_without_callback. Qed.
+Print Assumptions C06_about_to_finish_without_callback.
+
+Theorem C06_about_to_finish_runs_callback : forall w u fl,
+  atf_cb (cfg w) = true ->
+  fst (step w (AboutToFinish false (Some (u, fl)))) = fst (step w (SetUri u fl)) /\
+  o_cmds (snd (step w (AboutToFinish false (Some (u, fl))))) = CCallAtf :: o_cmds (snd (step w (SetUri u fl))) /\
+  o_evs (snd (step w (AboutToFinish false (Some (u, fl))))) = [].
+Proof. exact about_to_finish_runs_callback. Qed.
+Print Assumptions C06_about_to_finish_runs_callback.
+
+Theorem C06_callback_registered_is_history : forall ins,
+  atf_cb (cfg (final init ins)) = fst (uri_hist ins).
+Proof. exact callback_registered_is_history. Qed.
+Print Assumptions C06_callback_registered_is_history.
+
+Theorem C06_about_to_finish_frame : forall w same next,
+  let w' := fst (step w (AboutToFinish same next)) in
+  st w' = st w /\ target w' = target w /\ buffering w' = buffering w /\ tags w' = tags w /\
+  (forall c, In c (o_cmds (snd (step w (AboutToFinish same next)))) -> forall g, c <> CSetState g).
+Proof. exact about_to_finish_frame. Qed.
+Print Assumptions C06_about_to_finish_frame.
+
+Theorem C06_live_is_last_set_uri : forall ins, live (cfg (final init ins)) = last_live ins.
+Proof. exact live_is_last_set_uri. Qed.
+Print Assumptions C06_live_is_last_set_uri.
+
+Theorem C06_source_setup_commands : forall pre l p h,
+  let w := final init pre in
+  o_cmds (snd (step w (SourceSetup true l p h))) =
+    (if src_cb (cfg w) then [CCallSource] else [])
+    ++ (if last_live pre && l then [CSetLive] else [])
+    ++ (if p && h then [CProxy] else []) /\
+  fst (step w (SourceSetup true l p h)) = w.
+Proof. exact source_setup_commands. Qed.
+Print Assumptions C06_source_setup_commands.
+
+Theorem C06_get_position_spec : forall w ok pos,
+  step w (GetPosition ok pos) = (w, mkOut (Ok (RPos (if ok then pos / 1000000 else 0))) [] []).
+Proof. exact get_position_spec. Qed.
+Print Assumptions C06_get_position_spec.
+
+Theorem C06_seek_position_roundtrip : forall w ms ok,
+  o_cmds (snd (step w (SetPosition ms ok))) = [CSeek (ms * MSECOND)] /\
+  o_ret (snd (step w (GetPosition true (ms * MSECOND)))) = Ok (RPos ms).
+Proof. exact seek_position_roundtrip. Qed.
+Print Assumptions C06_seek_position_roundtrip.
 
 (* ------------------------------------------------------------------ monitors *)
 
